@@ -693,7 +693,9 @@ Qed.
 (* ------------------------------------------------------------------ message flows *)
 
 Ltac flow_cases h :=
-  unfold exchange_call, exchange_push, srv_call, srv_push, vetoes, code_not_found, code_conn_closed;
+  unfold exchange_call, exchange_push, exchange_call_sr, exchange_push_sr, srv_call_f, srv_push_f,
+    srv_call, srv_push, srv_call_nopool, srv_call_badreply, srv_push_nopool,
+    vetoes, code_not_found, code_conn_closed, code_internal;
   cbn zeta;
   try (destruct h as [[[?hid ?hs] ?hc]|]);
   repeat match goal with
@@ -887,7 +889,7 @@ Lemma call_prewrite_veto gc gs h :
   r_written r = false /\ r_srv_prh r = [] /\ r_srv r = [] /\ r_invoked r = [] /\
   r_cli r = [(PreWriteCall, gc)] /\ r_status r = verdict_of PreWriteCall gc /\ r_status r <> 0%Z.
 Proof.
-  intros Hv. unfold exchange_call. rewrite Hv. cbn. repeat split.
+  intros Hv. unfold exchange_call, exchange_call_sr. rewrite Hv. cbn. repeat split.
   apply vetoes_true. exact Hv.
 Qed.
 
@@ -897,16 +899,16 @@ Lemma push_prewrite_veto gc gs h :
   r_written r = false /\ r_srv_prh r = [] /\ r_srv r = [] /\ r_invoked r = [] /\
   r_cli r = [(PreWritePush, gc)] /\ r_status r = verdict_of PreWritePush gc /\ r_status r <> 0%Z.
 Proof.
-  intros Hv. unfold exchange_push. rewrite Hv. cbn. repeat split.
+  intros Hv. unfold exchange_push, exchange_push_sr. rewrite Hv. cbn. repeat split.
   apply vetoes_true. exact Hv.
 Qed.
 
 Lemma call_written_iff gc gs h : r_written (exchange_call gc gs h) = negb (vetoes PreWriteCall gc).
-Proof. unfold exchange_call. destruct (vetoes PreWriteCall gc); [reflexivity|]. cbn. destruct (sr_out _); [|reflexivity|reflexivity].
+Proof. unfold exchange_call, exchange_call_sr. destruct (vetoes PreWriteCall gc); [reflexivity|]. cbn. destruct (sr_out _); [|reflexivity|reflexivity].
   repeat match goal with |- context [if ?b then _ else _] => destruct b end; reflexivity. Qed.
 
 Lemma push_written_iff gc gs h : r_written (exchange_push gc gs h) = negb (vetoes PreWritePush gc).
-Proof. unfold exchange_push. destruct (vetoes PreWritePush gc); reflexivity. Qed.
+Proof. unfold exchange_push, exchange_push_sr. destruct (vetoes PreWritePush gc); reflexivity. Qed.
 
 (* ------------------------------------------------------------------ traces follow plans *)
 
@@ -1546,7 +1548,7 @@ Lemma send_matches_exchange gc gs h n :
   exists rest, r_cli (exchange_call gc gs h) =
                sd_plan (send_flow false PreWriteCall PostWriteCall gc n WOk) ++ rest.
 Proof.
-  unfold send_flow, exchange_push, exchange_call. rewrite !reentries_false. cbn [app].
+  unfold send_flow, exchange_push, exchange_call, exchange_push_sr, exchange_call_sr. rewrite !reentries_false. cbn [app].
   destruct (vetoes PreWritePush gc); cbn; (split; [reflexivity|]); (split; [reflexivity|]);
     destruct (vetoes PreWriteCall gc); cbn; try (exists []; reflexivity);
     destruct (sr_out (srv_call gs h)); cbn;
